@@ -365,8 +365,10 @@ class Report:
         ev = {"property_id": self.prop, "tier": self.tier, "seed": self.seed, "level": self.level,
               "coverage": cov, "assumptions": self.assumptions, "wall_s": round(wall, 2),
               "violations": len(self.violations), "notes": self.notes, "repo_head": repo_head()}
-        os.makedirs(os.path.join(VERIF, "evidence"), exist_ok=True)
-        with open(os.path.join(VERIF, "evidence", self.prop + ".json"), "w") as f:
+        # evidence describes runs against /repo itself; a run aimed at another tree (VERIF_REPO: trying a seeded change) keeps its record apart
+        edir = os.path.join(VERIF, "evidence") if os.path.realpath(REPO) == "/repo" else os.path.join(BUILD, "evidence-other-tree")
+        os.makedirs(edir, exist_ok=True)
+        with open(os.path.join(edir, self.prop + ".json"), "w") as f:
             json.dump(ev, f, indent=1)
         log("[%s %s seed=%s] evaluations=%d decided=%d oom=%d states=%d violations=%d known=%s wall=%.1fs" % (
             self.prop, self.tier, self.seed, cov["evaluations"], cov["traces_validated_against_impl"],
